@@ -12,13 +12,17 @@
        NoPartial  a failed operation linked nothing (caller-visible state unchanged)
        NoDoubleFree
    AsFoundF switches select the clean-up programs as found at the pinned commit:
-   "objadd_key_leak" (D08a), "attach_leak" (D08b). *)
+   "objadd_key_leak" (D08a), "attach_leak" (D08b), "format_dangling" (D08e: the process-wide double format is released
+   before its replacement is duplicated and the pointer keeps addressing it when the duplication fails).
+   [i |-> "unlink", r]: the outliving structure stops referring to r.  NoDangling: at return nothing that an outliving
+   structure refers to has been freed. *)
 EXTENDS Naturals, Sequences, FiniteSets, TLC
 CONSTANT AsFoundF
 A(r) == [i |-> "alloc", r |-> r]
 F(r) == [i |-> "free", r |-> r]
 L(r) == [i |-> "link", r |-> r]
 T(r) == [i |-> "take", r |-> r]
+U(r) == [i |-> "unlink", r |-> r]
 \* json_object_object_add_ex on a table that must grow: strdup(key); lh_table_new: struct, slots;
 \* re-insert; free old slots; free new struct; insert
 ObjAddGrow == [prog |-> <<A("key"), A("tstruct"), A("tslots"), F("oldslots"), F("tstruct"), L("key"), L("tslots")>>,
@@ -39,15 +43,22 @@ NewObject == [prog |-> <<A("node"), A("tstruct"), A("tslots"), L("node"), L("tst
 SetStringGrow == [prog |-> <<A("newbuf"), F("oldbuf"), L("newbuf")>>, pre |-> {"oldbuf"}, onfail |-> [newbuf |-> <<>>]]
 TokenerNew == [prog |-> <<A("tok"), A("stack"), A("pb"), A("pbbuf"), L("tok"), L("stack"), L("pb"), L("pbbuf")>>, pre |-> {},
                onfail |-> [tok |-> <<>>, stack |-> <<F("tok")>>, pb |-> <<F("stack"), F("tok")>>, pbbuf |-> <<F("pb"), F("stack"), F("tok")>>]]
-Ops == <<ObjAddGrow, ObjAddPlain, ParserAttach, ParserMember, NewDoubleS, NewObject, SetStringGrow, TokenerNew>>
+\* json_c_set_serialization_double_format(fmt, GLOBAL) over an installed format: the old text is released, the new one duplicated;
+\* a failed call leaves no format installed (prelinked = what the library's global refers to before the call)
+SetFormat == [prog |-> IF "format_dangling" \in AsFoundF THEN <<F("oldfmt"), A("newfmt"), U("oldfmt"), L("newfmt")>>
+                       ELSE <<F("oldfmt"), U("oldfmt"), A("newfmt"), L("newfmt")>>,
+              pre |-> {"oldfmt"}, prelinked |-> {"oldfmt"}, failpre |-> {}, onfail |-> [newfmt |-> <<>>]]
+Ops == <<ObjAddGrow, ObjAddPlain, ParserAttach, ParserMember, NewDoubleS, NewObject, SetStringGrow, TokenerNew, SetFormat>>
+PreLinked(o) == IF "prelinked" \in DOMAIN Ops[o] THEN Ops[o].prelinked ELSE {}
+FailPre(o) == IF "failpre" \in DOMAIN Ops[o] THEN Ops[o].failpre ELSE Ops[o].pre
 
 VARIABLES op, failat, pc, cleanup, held, linked, freed, status, dbl
 vars == <<op, failat, pc, cleanup, held, linked, freed, status, dbl>>
 Allocs(o) == {Ops[o].prog[i].r : i \in {j \in 1..Len(Ops[o].prog) : Ops[o].prog[j].i = "alloc"}}
 Init == /\ op \in 1..Len(Ops) /\ failat \in Allocs(op) \cup {"none"}
-        /\ pc = 1 /\ cleanup = <<>> /\ held = Ops[op].pre /\ linked = {} /\ freed = {} /\ status = "run" /\ dbl = FALSE
-Exec(ins) == /\ held' = (CASE ins.i \in {"alloc", "take"} -> held \cup {ins.r} [] ins.i \in {"free", "link"} -> held \ {ins.r})
-             /\ linked' = IF ins.i = "link" THEN linked \cup {ins.r} ELSE linked
+        /\ pc = 1 /\ cleanup = <<>> /\ held = Ops[op].pre /\ linked = PreLinked(op) /\ freed = {} /\ status = "run" /\ dbl = FALSE
+Exec(ins) == /\ held' = (CASE ins.i \in {"alloc", "take"} -> held \cup {ins.r} [] ins.i \in {"free", "link"} -> held \ {ins.r} [] OTHER -> held)
+             /\ linked' = IF ins.i = "link" THEN linked \cup {ins.r} ELSE IF ins.i = "unlink" THEN linked \ {ins.r} ELSE linked
              /\ freed' = IF ins.i = "free" THEN freed \cup {ins.r} ELSE freed
              /\ dbl' = (dbl \/ (ins.i = "free" /\ (ins.r \in freed \/ ins.r \notin held)))
 Step == /\ status = "run"
@@ -66,8 +77,9 @@ Next == Step \/ Clean
 Spec == Init /\ [][Next]_vars
 Returned == status \in {"ok", "failed"}
 \* caller-owned resources that existed before the call and were not replaced stay held by the caller: only "pre" ones may remain on failure
-NoLeak == Returned => IF status = "ok" THEN held = {} ELSE held = Ops[op].pre
-NoPartial == status = "failed" => linked = {}
+NoLeak == Returned => IF status = "ok" THEN held = {} ELSE held = FailPre(op)
+NoPartial == status = "failed" => linked \subseteq PreLinked(op)
+NoDangling == Returned => linked \cap freed = {}
 NoDoubleFree == ~dbl
 FailsOnlyWhenFaulted == (status = "failed") => failat # "none"
 ====
